@@ -153,6 +153,13 @@ func evalS(fr *psFrame, v ssa.Value, depth int) sAff {
 		}
 	case *ssa.Phi:
 		return topAff("phi " + x.Comment + " not resolved on this path")
+	case *ssa.Call:
+		// a helper method of the reader that just computes a length: one block, one return
+		if sc := x.Call.StaticCallee(); sc != nil && isRepoFn(sc) && len(sc.Blocks) == 1 && len(x.Call.Args) == 1 {
+			if ret, ok := sc.Blocks[0].Instrs[len(sc.Blocks[0].Instrs)-1].(*ssa.Return); ok && len(ret.Results) == 1 {
+				return evalS(&psFrame{f: sc, env: map[ssa.Value]sAff{}}, ret.Results[0], depth+1)
+			}
+		}
 	}
 	return topAff(shortVal(v))
 }
